@@ -44,4 +44,20 @@ def replay_duration(job):
     return {"violated": bool(err), "detail": err or ""}
 
 
+def search_formats(job):
+    from bounded import c14_datetime as D
+    warnings.simplefilter("ignore")
+    for seed in (1, 2, 3):
+        r = D.run_case({"kind": "composition", "seed": seed, "n": 300})
+        if r and not r.get("ok"):
+            return {"violated": True, "detail": r["detail"], "job": {"custom": "replay_composition", "seed": seed}}
+    return {"violated": False}
+
+
+def replay_composition(job):
+    from bounded import c14_datetime as D
+    r = D.run_case({"kind": "composition", "seed": job["seed"], "n": 300})
+    return {"violated": bool(r and not r.get("ok")), "detail": (r or {}).get("detail", "")}
+
+
 NATIVE = {}
